@@ -203,8 +203,9 @@ class _Sized:
 
 
 def ob_cpu_count(os_cpus: int, os_none: bool, aff: int, has_aff: bool, loky: int, has_loky: bool,
-                 cg: int, has_cg: bool, cg_max: bool) -> bool:
+                 cg: int, has_cg: bool, cg_max: bool, phys: bool, pc: int) -> bool:
     """
+    pre: 1 <= pc <= os_cpus
     pre: 1 <= os_cpus <= 512
     pre: 1 <= aff <= 512
     pre: -4 <= loky <= 600
@@ -252,8 +253,9 @@ def ob_cpu_count(os_cpus: int, os_none: bool, aff: int, has_aff: bool, loky: int
         import sys as _sys
         saved_psutil = _sys.modules.get("psutil", _Patch)
         _sys.modules["psutil"] = None       # `import psutil` raises ImportError: fallback path
+        p.set(ctx, "_count_physical_cores", lambda: (pc, None))      # what lscpu / sysctl would report
         try:
-            r = ctx.cpu_count()
+            r = ctx.cpu_count(only_physical_cores=True) if phys else ctx.cpu_count()
         finally:
             if saved_psutil is _Patch:
                 del _sys.modules["psutil"]
@@ -268,7 +270,10 @@ def ob_cpu_count(os_cpus: int, os_none: bool, aff: int, has_aff: bool, loky: int
     if has_cg and not cg_max and cg < bound:
         bound = cg
     exp = bound if bound >= 1 else 1
-    return H.verdict(r == exp and r >= 1, "cpu_count()=%r expected %r" % (r, exp))
+    H.assume(pc <= o)                         # a machine has at most as many physical as logical cores
+    if phys and not bound < o:
+        exp = pc                              # no user limit below the machine: the number of physical cores
+    return H.verdict(r == exp and r >= 1, "cpu_count(only_physical_cores=%r)=%r expected %r" % (bool(phys), r, exp))
 
 
 def ob_cpu_count_twice_native(os_cpus: int, aff1: int, aff2: int, loky1: int, loky2: int, has_loky: bool) -> bool:
